@@ -11,7 +11,8 @@ import re
 import lexer
 
 COMMENT_TEXTS = ["plain note", "it's quoted", "say \"hi\"", "a & b", "bang ! inside", "x = 1; y = 2",
-                 "(unbalanced", "trailing &", "'", "$omp parallel do", "dir$ ivdep", "MiXeD Case"]
+                 "(unbalanced", "trailing &", "'", "$omp parallel do", "dir$ ivdep", "MiXeD Case",
+                 "DIR$ IVDEP", "Dir$ vector always", "GCC$ unroll 4", "$OMP END PARALLEL DO", "gcc$ ivdep"]
 KEYWORDS_CASES = ("keep", "upper", "lower")
 
 
